@@ -1,5 +1,5 @@
 """C08 -- Parsers cut headers at the field boundaries their RFCs define."""
-from core import rng_for
+from core import impl_outcome, rng_for
 from schc_run import Batch
 from gens import STACK_GENS, ALL_STACKS, b2s
 import p_parse_common as pc
@@ -18,11 +18,14 @@ def run(rep, tier, seed):
     rnd = rng_for(seed, 'C08')
     b = Batch(rep)
     n = 3000 if tier == 'quick' else 40000
+    fresh = []
     for i in range(n):
         stack = ALL_STACKS[i % len(ALL_STACKS)]
         gen = rnd.choice(STACK_GENS[stack])
         pkt, st = gen(rnd)
         bits = b2s(pkt)
+        if i < 160 and len(pkt) < 3000:
+            fresh.append((stack, pkt))
         if i % 4 == 0:
             # the same long-lived parser object has just rejected (or not) a packet cut inside one of its later headers: nothing of
             # that attempt may show in the next parse
@@ -53,6 +56,7 @@ def run(rep, tier, seed):
         elif 'chunks' in st:
             for c in st['chunks']:
                 rep.hist['sctp-chunk-type:%d' % c['ctype']] = rep.hist.get('sctp-chunk-type:%d' % c['ctype'], 0) + 1
+    pc.fresh_process_parse(rep, 'C08', fresh)
     # every parser the registry hands out is its own: a caller that tailors the one it was given (stops the chaining, switches the
     # CoAP options to semantic mode, drops a header parser) must not change what the next caller of factory() gets
     from microschc.protocol.registry import factory
@@ -96,6 +100,21 @@ def run(rep, tier, seed):
             want_fields, want_payload = ref_fields(stack, full, st)
             fails = [] if out == ('OK', (tuple(want_fields), want_payload)) else ['%s parser on a large SCTP packet (%s, %d bytes): %s' % (stack, kind, len(full), str(out)[:120])]
             b.add('%s:sctp-large-%s' % (stack, kind), pc.model_line(stack, bits), out, pc.parse_model, fails, dict(layer='parser', op='parse', stack=stack, bits=bits[:2000] + '...'), key=(stack, kind, len(bits), bits[:64]))
+    # CoAP messages with several hundred options (a long Uri-Path, repeated queries): the occurrence position of each delta / length /
+    # value field counts on beyond 255 and 256
+    for nopt in ([257, 300] if tier == 'quick' else [255, 256, 257, 300, 600, 1030]):
+        first = rnd.choice([3, 11, 15])
+        pkt, st = P.coap(rnd, opts=[(first, rnd.randint(0, 2))] + [(rnd.choice([0, 0, 0, 1]), rnd.choice([0, 1, 2])) for _ in range(nopt - 1)])
+        for stack, full in (('CoAP', pkt), ('UDP', P.udp(rnd, pkt, csum=lambda x: rnd.randrange(1, 65536), dport=5683))):
+            st2 = st if stack == 'CoAP' else dict(st)
+            bits = b2s(full)
+            out = pc.observe(stack, bits)
+            o_ = impl_outcome(lambda: ref_fields(stack, full, st2))
+            if o_[0] != 'OK':
+                continue
+            want_fields, want_payload = o_[1]
+            fails = [] if out == ('OK', (tuple(want_fields), want_payload)) else ['%s parser on a CoAP message with %d options: %s' % (stack, nopt, str(out)[:120])]
+            b.add('%s:coap-many-options' % stack, pc.model_line(stack, bits), out, pc.parse_model, fails, dict(layer='parser', op='parse', stack=stack, bits=bits), key=(stack, 'many', nopt, bits[:64]))
     b.run()
 
 
